@@ -338,7 +338,7 @@ func (c *CoreRun) exec(l map[string]any) string {
 		for vb := range c.wire {
 			c.wire[vb] = nil
 		}
-		c.r.S.Emit(Ev{"ev": "Boot", "auto": c.opt.CheckpointAuto, "member": c.r.Opt.Member, "total": c.r.Opt.Total})
+		c.r.S.Emit(Ev{"ev": "Boot", "auto": c.opt.CheckpointAuto, "finite": c.opt.Finite, "member": c.r.Opt.Member, "total": c.r.Opt.Total})
 		r := c.r
 		r.S.Go("main", func() {
 			r.Dcp.Start()
@@ -448,6 +448,12 @@ func (c *CoreRun) exec(l map[string]any) string {
 		}
 		if c.lockHeld() {
 			return "save lock is held"
+		}
+		c.r.S.Release(t, nil)
+	case "SaveTake":
+		t := str(l["t"])
+		if c.r.S.Parked()[t] != "save.take" {
+			return t + " is not at save.take"
 		}
 		c.r.S.Release(t, nil)
 	case "StoreWrite":
